@@ -106,8 +106,7 @@ theorem coreLoop_bs (strict : Bool) (s : Str) (fn : Footnotes.Table) (pre : Str)
   obtain ⟨d1, d2, d3, d4, d5, d6, _, _⟩ := escapable_of d hd
   have hi0 : s[pre.length]? = some '\\' := by rw [hs]; exact getElem?_at pre '\\' (d :: rest)
   have hi1 : s[pre.length + 1]? = some d := by
-    have := getElem?_after pre '\\' (d :: rest) 0
-    simpa [hs] using this
+    simp [hs]
   have hlast : (pre ++ ['\\', d]).getLast? = some d := by simp
   have hem' : emphOk2 so su d rest = true :=
     em2_skip _ _ _ _ _ (em2_skip _ _ _ _ _ hem (fun h => by rcases h.1 with e | e <;> cases e))
